@@ -977,7 +977,7 @@ impl WdtRoundtrip {
             return WdtRoundtrip { name: "wdt_flags", len, gen };
         }
         // thorough: all 65536 words x all 10 versions x every MAID mode consistent with bit 0x200 (BfA: all of them;
-        // Shadowlands/Dragonflight: the plain one; earlier versions: flag without chunk) x 2 object shapes consistent with bit 0
+        // Shadowlands/Dragonflight: the plain one; earlier versions: flag without chunk) x 4 object shapes consistent with bit 0
         let mk = |set: bool| -> (u64, Gen<RtCase>) {
             let mut vms: Vec<(usize, usize)> = vec![];
             for vi in 0..NV {
@@ -990,7 +990,10 @@ impl WdtRoundtrip {
                     vms.push((vi, if set { 1 } else { 0 }));
                 }
             }
-            let rad = [2u64, vms.len() as u64, 32768];
+            // terrain: usual shape of the version / +1 MODF without MWMO / +1 name / 3 names + 3 MODF;
+            // WMO-only: 1+1 / 1 name without MODF / empty+empty / 3+3
+            let t33 = objs().iter().position(|o| !o.wmo_only && o.mwmo == Some(3) && o.modf == Some(3)).expect("shape");
+            let rad = [4u64, vms.len() as u64, 32768];
             (
                 gen::product(&rad),
                 Box::new(move |i| {
@@ -998,8 +1001,7 @@ impl WdtRoundtrip {
                     let w = word_with_maid_bit(d[2] as u32, set);
                     let (vi, maid) = vms[d[1] as usize];
                     let obj = match (w & 1 != 0, d[0]) {
-                        (true, 0) => 2,
-                        (true, _) => 5,
+                        (true, k) => [2, 5, 4, 3][k as usize],
                         (false, 0) => {
                             if vi < 3 {
                                 1
@@ -1007,7 +1009,7 @@ impl WdtRoundtrip {
                                 0
                             }
                         }
-                        (false, _) => 7,
+                        (false, k) => [0, 7, 6, t33][k as usize],
                     };
                     RtCase { vi, maid, g: GridSel::Pat(9), values: 1, flags: w & 0xFDFE, obj }
                 }),
@@ -1140,7 +1142,7 @@ impl WdtConv {
             return WdtConv { len, gen };
         }
         // thorough: sources = 10 versions + {BfA, Shadowlands, Dragonflight} x MAID modes {8+ids, 5 sections, chunk without flag, flag without chunk};
-        // targets = 10 versions.  Block 1: 14 grids x 2 x 4 flag sets x 8 shapes; block 2: 2 grids x 2 x 128 conversion-sensitive flag sets x 4 shapes
+        // targets = 10 versions.  Block 1: 14 grids x 2 x 4 flag sets x all 32 shapes; block 2: 2 grids x 2 x 128 conversion-sensitive flag sets x 4 shapes
         let mut from: Vec<(usize, usize)> = (0..NV).map(|i| (i, 0)).collect();
         for vi in BFA..NV {
             for m in 1..MAID_MODES_Q {
@@ -1159,7 +1161,7 @@ impl WdtConv {
                 }),
             )
         };
-        let (len, gen) = blocks(vec![mk((0..GRIDS.len()).collect(), vec![0u32, 0xFDFE, 0x5554, 0xA8AA], (0..OBJS_Q).collect()), mk(vec![9, 13], conv_flagsets(), vec![0, 1, 2, 7])]);
+        let (len, gen) = blocks(vec![mk((0..GRIDS.len()).collect(), vec![0u32, 0xFDFE, 0x5554, 0xA8AA], (0..objs().len()).collect()), mk(vec![9, 13], conv_flagsets(), vec![0, 1, 2, 7])]);
         WdtConv { len, gen }
     }
 }
